@@ -1682,8 +1682,7 @@ impl XmlDocument {
         }
 
         if let Some(d) = value.prolog.declaration_doc.as_ref() {
-            let doc_type = XmlDocumentTypeDeclaration::node(d, &context);
-            document.borrow_mut().push_child(doc_type?);
+            XmlDocumentTypeDeclaration::build(d, &context, true)?;
         }
 
         for t in value.prolog.tails.as_slice() {
@@ -1870,6 +1869,14 @@ impl XmlDocumentTypeDeclaration {
         value: &parser::DeclarationDoc<'_>,
         context: &Context,
     ) -> error::Result<Rc<XmlItem>> {
+        Self::build(value, context, false)
+    }
+
+    fn build(
+        value: &parser::DeclarationDoc<'_>,
+        context: &Context,
+        attach: bool,
+    ) -> error::Result<Rc<XmlItem>> {
         let (local_name, prefix) = qname(&value.name);
 
         let (system_identifier, public_identifier) = match value.external_id.as_ref() {
@@ -1889,6 +1896,14 @@ impl XmlDocumentTypeDeclaration {
             context: context.next(),
         });
         let declaration_id = declaration.borrow().id();
+
+        let node: Rc<XmlItem> = Rc::new(declaration.clone().into());
+        declaration.borrow().context.add_item(&node);
+        if attach {
+            // A declaration of the internal subset may refer to an entity declared before it,
+            // so the document knows its document type while the subset is read.
+            context.document().borrow().push_child(node.clone());
+        }
 
         for subset in &value.internal_subset {
             match subset {
@@ -1932,8 +1947,6 @@ impl XmlDocumentTypeDeclaration {
             }
         }
 
-        let node: Rc<XmlItem> = Rc::new(declaration.clone().into());
-        declaration.borrow().context.add_item(&node);
         Ok(node)
     }
 
